@@ -40,6 +40,14 @@ CHECKS["C02"] = dict(category="exploration",
       note="Trusted: reference parser/evaluator in vlib/rules.py. Rejection accepts any exception. One open known finding "
            "(unknown profile in EXTENDERS accepted; pinned by the repository's test_extenders).",
       design="3/C02")
+CHECKS["C16"] = dict(category="exploration",
+      technique="bounded enumeration of colliding id lists + Hypothesis id/name/gene-name generators with direct predicates on pre_process_sequences output",
+      text="All ordered lists of 1-3 (thorough 4) ids from a pool of mutually colliding forms and all contig-number widths are enumerated; "
+           "random lists of up to 12 ids (duplicates, illegal-character variants, shortened/deduplicated forms of other ids, versioned "
+           "accessions, long contig numbers) are sampled; ids must be pairwise distinct, free of the documented illegal characters, "
+           "<=16 characters unless long headers are allowed, with original_id remembered; gene names unique or the record rejected.",
+      note="Trusted: the illegal character set is the one documented in fix_record_name_id. cpus=1 (the parallel path is C18's).",
+      design="3/C16")
 NOT_YET = {}
 
 def main():
